@@ -227,10 +227,10 @@ func ParsePPSNALUnit(data []byte, spsMap map[uint32]*SPS) (*PPS, error) {
 		pps.NumTileRowsMinus1 = r.ReadExpGolomb()
 		pps.UniformSpacingFlag = r.ReadFlag()
 		if !pps.UniformSpacingFlag {
-			for i := uint(0); i < pps.NumTileColumnsMinus1; i++ {
+			for i := uint(0); i < pps.NumTileColumnsMinus1 && r.AccError() == nil; i++ {
 				pps.ColumnWidthMinus1 = append(pps.ColumnWidthMinus1, r.ReadExpGolomb())
 			}
-			for i := uint(0); i < pps.NumTileRowsMinus1; i++ {
+			for i := uint(0); i < pps.NumTileRowsMinus1 && r.AccError() == nil; i++ {
 				pps.RowHeightMinus1 = append(pps.RowHeightMinus1, r.ReadExpGolomb())
 			}
 		}
@@ -333,7 +333,7 @@ func parseRangeExtension(r *bits.EBSPReader, transformSkipEnabled bool) (*RangeE
 	if ext.ChromaQpOffsetListEnabledFlag {
 		ext.DiffCuChromaQpOffsetDepth = r.ReadExpGolomb()
 		ext.ChromaQpOffsetListLenMinus1 = r.ReadExpGolomb()
-		for i := uint(0); i <= ext.ChromaQpOffsetListLenMinus1; i++ {
+		for i := uint(0); i <= ext.ChromaQpOffsetListLenMinus1 && r.AccError() == nil; i++ {
 			// values shall be in the range of −12 to +12, inclusive
 			ext.CbQpOffsetList = append(ext.CbQpOffsetList, int8(r.ReadSignedGolomb()))
 			ext.CrQpOffsetList = append(ext.CrQpOffsetList, int8(r.ReadSignedGolomb()))
@@ -357,6 +357,10 @@ func parseMultilayerExtension(r *bits.EBSPReader) (*MultilayerExtension, error) 
 		ext.ScalingListRefLayerId = uint8(r.Read(6))
 	}
 	ext.NumRefLocOffsets = r.ReadExpGolomb()
+	if ext.NumRefLocOffsets > 63 {
+		// value shall be in the range of 0 to vps_max_layers_minus1 (at most 62), inclusive
+		return nil, fmt.Errorf("num_ref_loc_offsets is %d, but must be at most 62", ext.NumRefLocOffsets)
+	}
 	ext.RefLocOffsets = make(map[uint8]RefLocOffset, int(ext.NumRefLocOffsets))
 	for i := uint(0); i < ext.NumRefLocOffsets; i++ {
 		ext.RefLocOffsetLayerIds = append(ext.RefLocOffsetLayerIds, uint8(r.Read(6)))
@@ -407,7 +411,11 @@ func parseMultilayerExtension(r *bits.EBSPReader) (*MultilayerExtension, error) 
 func parseColourMappingTable(r *bits.EBSPReader) (*ColourMappingTable, error) {
 	cm := &ColourMappingTable{}
 	// value shall be in the range of 0 to 61, inclusive
-	cm.NumCmRefLayersMinus1 = uint8(r.ReadExpGolomb())
+	numCmRefLayersMinus1 := r.ReadExpGolomb()
+	if numCmRefLayersMinus1 > 61 {
+		return nil, fmt.Errorf("num_cm_ref_layers_minus1 is %d, but must be in range 0 to 61", numCmRefLayersMinus1)
+	}
+	cm.NumCmRefLayersMinus1 = uint8(numCmRefLayersMinus1)
 	for i := uint8(0); i <= cm.NumCmRefLayersMinus1; i++ {
 		cm.RefLayerId = append(cm.RefLayerId, uint8(r.Read(6)))
 	}
@@ -525,13 +533,13 @@ func parseSccExtension(r *bits.EBSPReader) (*SccExtension, error) {
 			}
 			ext.PalettePredictorInitializer = make([][]uint, numComps)
 			// Fill luma
-			for i := uint(0); i < ext.NumPalettePredictorInitializers; i++ {
+			for i := uint(0); i < ext.NumPalettePredictorInitializers && r.AccError() == nil; i++ {
 				ext.PalettePredictorInitializer[0] =
 					append(ext.PalettePredictorInitializer[0], r.Read(int(ext.LumaBitDepthEntryMinus8+8)))
 			}
 			// Fill chroma if any
 			for comp := 1; comp < numComps; comp++ {
-				for i := uint(0); i < ext.NumPalettePredictorInitializers; i++ {
+				for i := uint(0); i < ext.NumPalettePredictorInitializers && r.AccError() == nil; i++ {
 					ext.PalettePredictorInitializer[comp] =
 						append(ext.PalettePredictorInitializer[comp], r.Read(int(ext.ChromaBitDepthEntryMinus8+8)))
 				}
@@ -563,7 +571,7 @@ func parse3dExtension(r *bits.EBSPReader) (*D3Extension, error) {
 				if layer.DltValFlagsPresentFlag {
 					// variable depthMaxValue is set equal to ( 1 << ( pps_bit_depth_for_depth_layers_minus8 + 8 ) ) − 1
 					depthMaxValue := (1 << (ext.BitDepthForDepthLayersMinus8 + 8)) - 1
-					for j := 0; j <= depthMaxValue; j++ {
+					for j := 0; j <= depthMaxValue && r.AccError() == nil; j++ {
 						layer.DltValueFlag = append(layer.DltValueFlag, r.ReadFlag())
 					}
 				} else {
@@ -599,7 +607,7 @@ func parseDeltaDlt(r *bits.EBSPReader, BitDepthForDepthLayers int) (*DeltaDlt, e
 		}
 		dd.DeltaDltVal0 = r.Read(BitDepthForDepthLayers)
 		if dd.MaxDiff > (dd.MinDiffMinus1 + 1) {
-			for k := uint(1); k < dd.NumValDeltaDlt; k++ {
+			for k := uint(1); k < dd.NumValDeltaDlt && r.AccError() == nil; k++ {
 				// variable minDiff is set equal to ( min_diff_minus1 + 1 )
 				// length of delta_val_diff_minus_min[ k ] syntax element is Ceil( Log2( max_diff − minDiff + 1 ) ) bits
 				dd.DeltaValDiffMinusMin =
